@@ -1,6 +1,7 @@
 package vuego
 
 import (
+	"fmt"
 	"strings"
 
 	"golang.org/x/net/html"
@@ -21,6 +22,16 @@ func (v *Vue) evalConditionExpr(ctx VueContext, expr string) (bool, error) {
 
 	// Normalize comparison operators: coalesce === to == and !== to !=
 	expr = helpers.NormalizeComparisonOperators(expr)
+
+	// A call of a registered template function means the same here as in {{ }}:
+	// it goes through the pipe interpreter, and its errors fail the render
+	if v.isTemplateFuncCall(expr) {
+		val, err := v.evalPipe(ctx, parsePipeExpr(expr))
+		if err != nil {
+			return false, fmt.Errorf("in expression '%s': %w", expr, err)
+		}
+		return helpers.IsTruthy(val), nil
+	}
 
 	// Try to evaluate as expr expression first (supports ==, !=, &&, ||, !, <, >, <=, >=, and function calls)
 	result, err := v.exprEval.Eval(expr, ctx.stack.EnvMap())
@@ -47,6 +58,11 @@ func (v *Vue) evalConditionExpr(ctx VueContext, expr string) (bool, error) {
 		}
 		// Undefined value: !undefined = true
 		return true, nil
+	}
+
+	// A call of a function that is neither registered nor built in is an error, not a false condition
+	if m := filterRe.FindStringSubmatch(expr); m != nil && helpers.IsFunctionCall(expr) && !strings.Contains(expr, "|") {
+		return false, fmt.Errorf("in expression '%s': function '%s' not found", expr, m[1])
 	}
 
 	// Fall back to legacy behavior for simple variable references
@@ -245,4 +261,16 @@ func (v *Vue) evaluateNodeAsElement(ctx VueContext, node *html.Node, depth int) 
 
 	result = append(result, newNode)
 	return result, nil
+}
+
+// isTemplateFuncCall reports whether a condition is exactly one call of a registered template function.
+func (v *Vue) isTemplateFuncCall(expr string) bool {
+	if helpers.IsComplexExpr(expr) || strings.Contains(expr, "|") {
+		return false
+	}
+	if m := filterRe.FindStringSubmatch(expr); m != nil && helpers.IsFunctionCall(expr) {
+		_, registered := v.funcMap[m[1]]
+		return registered
+	}
+	return false
 }
